@@ -18,6 +18,10 @@ FIELD = {'plate': 'compmech/panel/models/clt_bardell_field.pyx', 'cpanel': 'comp
 
 
 def build(cfg, values=None):
+    if cfg['variant'].startswith('bay-'):
+        # field recovery of a stiffened bay: each component with its own slice of the amplitude vector (harness shared with C13)
+        from . import c13
+        return c13.build(cfg, values)
     model, m, n, variant = cfg['model'], cfg['m'], cfg['n'], cfg['variant']
     P, cores = cfg['P'], cfg['cores']
     ctx = PanelCtx(values=values, seed=cfg.get('seed', 0))
@@ -140,6 +144,11 @@ def configs(tier, seed):
         if not quick:
             out.append({'model': model, 'm': 3, 'n': 3, 'variant': 'strain', 'NL': 0, 'P': 3, 'cores': 2, 'group': 'strain:%s' % model})
             out.append({'model': model, 'm': 3, 'n': 3, 'variant': 'stress', 'NL': 0, 'P': 2, 'cores': 2, 'group': 'stress:%s' % model})
+    T = lambda mb, nb, mf, nf: ('T2', dict(mb=mb, nb=nb, mf=mf, nf=nf))
+    B2 = lambda mf, nf, base=False: ('B2', dict(mf=mf, nf=nf, base=base))
+    for name, st in (('B2+T2', [B2(1, 2), T(1, 1, 2, 1)]), ('T2+B2', [T(1, 1, 2, 1), B2(1, 2)]), ('T2+T2-unequal', [T(1, 1, 1, 2), T(2, 1, 2, 1)]),
+                     ('B2+B2', [B2(1, 2), B2(2, 1, True)])):
+        out.append({'variant': 'bay-fields', 'm': 1, 'n': 2, 'stiffeners': st, 'group': 'bay-fields:%s' % name, 'model': 'bay', 'P': 2, 'cores': 2})
     out[0]['canary'] = True
     out[-1]['canary'] = True
     out[len(out) // 2]['canary'] = True
@@ -159,7 +168,8 @@ def main():
     run.bounds = {'series_orders_(m,n)': sorted({(c['m'], c['n']) for c in cf}), 'num_cores': sorted({c['cores'] for c in cf if c['cores']}),
                   'points': sorted({c['P'] for c in cf}), 'configurations': len(cf)}
     run.assume('a, b, r > 0', 'function tables = Bardell polynomials (C10)', 'prange chunks executed sequentially: chunks write disjoint rows (checked by bounds-checked views); data races are outside')
-    run.outside = ['real OpenMP scheduling', 'assembly / bay group evaluation (claimed under C13 when built)', 'orders above the bound']
+    run.encoded('compmech/stiffpanelbay/stiffpanelbay.py', 'StiffPanelBay.uvw_skin, uvw_stiffener')
+    run.outside = ['real OpenMP scheduling', 'PanelAssembly.uvw/strain/stress plotting groups', 'orders above the bound']
     res = pmap(kprop.job, [(__name__, c) for c in cf])
     kprop.handle(run, res, build, 'field values differ from the series/kinematics')
     return run.finish()
